@@ -102,7 +102,11 @@ def strategy(draw):
     text, bg, meta = draw(gc.pair_near(thresholds=(minimum,), delta_lo=-0.25, delta_hi=0.0, tight=0.06))
     targ, tkind, _ = draw(gc.spell(text, kinds=["hex6", "rgb", "hsl", "tuple", "nohash", "named"], allow_translucent=False))
     barg, bkind, _ = draw(gc.spell(bg, kinds=["hex6", "rgb", "tuple"], allow_translucent=False))
-    return {"text": targ, "bg": barg, "large": large, "very": very, "tkind": tkind}
+    case = {"text": targ, "bg": barg, "large": large, "very": very, "tkind": tkind}
+    w = draw(optim.warm())
+    if w:
+        case["warm"] = w
+    return case
 
 
 def subchecks(tier):
